@@ -462,6 +462,7 @@ pub fn generate(stream: &str, tier: &str, seed: u64) -> Vec<String> {
         "l1.vrf" => gen_vrf(&mut rng, thorough, &mut out),
         "l1.sched" => gen_sched(&mut rng, thorough, &mut out),
         "l1.sched.read" => gen_sched_read(&mut rng, thorough, &mut out),
+        "l1.sched.poll" => gen_sched_poll(&mut rng, thorough, &mut out),
         "l1.partial" => gen_partial(&mut rng, thorough, &mut out),
         "l1.dir.c01" => {
             for i in 0..ncases {
@@ -967,6 +968,46 @@ pub fn gen_sched_read(rng: &mut Rng, thorough: bool, out: &mut Vec<String>) {
         out.push(format!("sch.read {bound} {rcache} audit 0 2 || {batch}"));
         out.push(format!("sch.read {} {rcache} history {u0} recent:1 | audit 1 2 || {batch}", bound.min(2)));
         if !thorough && rcache == "same:default" {
+            break;
+        }
+    }
+}
+
+
+/// `l1.sched.poll` (C13, last clause): a writer instance publishes while requests are served by a second, read-only
+/// instance with its own cache, on which `poll_for_azks_changes` runs; every schedule up to the preemption bound.
+pub fn gen_sched_poll(rng: &mut Rng, thorough: bool, out: &mut Vec<String>) {
+    let rt = rt();
+    let bound = if thorough { 3 } else { 2 };
+    // `lat:<mode>`: database reads have latency (a second scheduling point when the value is delivered)
+    for (cfg, rcache) in [("wv1", "lat:default"), ("exp", "default"), ("exp", "lat:default"), ("wv1", "default"), ("wv1", "lat:1ms"), ("exp", "1ms")] {
+        out.push(format!("fx.reset {cfg} none off"));
+        out.push(format!("ck {}", key_hex(&rt)));
+        let pool = user_pool(rng, 4);
+        for u in &pool {
+            for v in 1..=6u64 {
+                for fresh in [true, false] {
+                    out.push(format!("vrf {} {} {} {}", hex_or_dash(u), if fresh { "F" } else { "S" }, v, show_label(&vrf_label(&rt, cfg, u, fresh, v))));
+                }
+            }
+        }
+        let pair = |rng: &mut Rng, i: usize| format!("{} {}", hex_or_dash(&pool[i]), hex_or_dash(&rng.bytes(3)));
+        out.push(format!("fx.publish {} {} {}", pair(rng, 0), pair(rng, 1), pair(rng, 2)));
+        out.push(format!("fx.publish {} {}", pair(rng, 0), pair(rng, 1)));
+        let u0 = hex_or_dash(&pool[0]);
+        let u2 = hex_or_dash(&pool[2]);
+        let b1 = format!("{} {}", pair(rng, 0), pair(rng, 3));
+        let b2 = pair(rng, 0);
+        out.push(format!("sch.poll {bound} {rcache} epochhash || {b1}"));
+        out.push(format!("sch.poll {bound} {rcache} lookup {u0} || {b1}"));
+        out.push(format!("sch.poll {bound} {rcache} epochhash | lookup {u2} || {b1}"));
+        // two publishes and a request path that does not queue behind the poller's flush: one preemption more
+        out.push(format!("sch.poll 3 {rcache} epochhash || {b1} || {b2}"));
+        out.push(format!("sch.poll {} {rcache} history {u0} complete | epochhash || {b1} || {b2}", bound.min(2)));
+        if !thorough && rcache == "exp" {
+            break;
+        }
+        if !thorough && rcache == "default" {
             break;
         }
     }
